@@ -27,8 +27,8 @@ Lemma ext_dispatch l : lookup (ext_of l) srp_ext_lang = Some (lang_key l) /\ loo
 Proof. destruct l; split; reflexivity. Qed.
 
 (* ------------------------------------------------------------------ evaluate_metrics + build_violation *)
-Lemma class_rep_py name mc loc kw line col cfg :
-  class_rep py_metrics_dict name mc loc kw line col cfg
+Lemma class_rep_py name mc loc kw line col hl hc cfg :
+  class_rep py_metrics_dict name mc loc kw line col hl hc cfg
   = spec_unit_rep name line col (cf_mm cfg) (cf_ml cfg) (cf_check cfg) mc loc kw.
 Proof.
   unfold class_rep, spec_unit_rep, spec_issues, evaluate, srp_clauses, py_metrics_dict, srp_position_keys, render_message, srp_message,
@@ -37,9 +37,9 @@ Proof.
   destruct (cf_mm cfg <? mc), (cf_ml cfg <? loc), (cf_check cfg), kw; reflexivity.
 Qed.
 
-Lemma class_rep_ts name mc loc kw line0 col cfg :
-  class_rep ts_metrics_dict name mc loc kw line0 col cfg
-  = spec_unit_rep name (line0 + 1) col (cf_mm cfg) (cf_ml cfg) (cf_check cfg) mc loc kw.
+Lemma class_rep_ts name mc loc kw line0 col hline0 hcol cfg :
+  class_rep ts_metrics_dict name mc loc kw line0 col hline0 hcol cfg
+  = spec_unit_rep name (hline0 + 1) hcol (cf_mm cfg) (cf_ml cfg) (cf_check cfg) mc loc kw.
 Proof.
   unfold class_rep, spec_unit_rep, spec_issues, evaluate, srp_clauses, ts_metrics_dict, srp_position_keys, render_message, srp_message,
          spec_message, methods_text, lines_text, keyword_text.
@@ -47,8 +47,8 @@ Proof.
   destruct (cf_mm cfg <? mc), (cf_ml cfg <? loc), (cf_check cfg), kw; reflexivity.
 Qed.
 
-Lemma class_rep_rs name mc loc kw line0 col cfg :
-  class_rep rs_metrics_dict name mc loc kw line0 col cfg
+Lemma class_rep_rs name mc loc kw line0 col hl hc cfg :
+  class_rep rs_metrics_dict name mc loc kw line0 col hl hc cfg
   = spec_unit_rep name (line0 + 1) col (cf_mm cfg) (cf_ml cfg) (cf_check cfg) mc loc kw.
 Proof.
   unfold class_rep, spec_unit_rep, spec_issues, evaluate, srp_clauses, rs_metrics_dict, srp_position_keys, render_message, srp_message,
